@@ -203,6 +203,11 @@ def run(ctx):
                     src = e[2]
                     sb = src[1] if src[0] == "ver" else src
                     okp = (sb[0] == "local" and sb[1] == "k_buff") and not seen_clear
+        elif d[0] == "call" and d[1] in ("std::mem::take", "core::mem::take", "std::mem::replace", "core::mem::replace"):
+            # the list is handed over by value at the moment of the take: it must be the call's list, not yet cleared
+            src = d[2]
+            sb = src[1] if src[0] == "ver" else src
+            okp = sb[0] == "local" and sb[1] == "k_buff" and not (src[0] == "ver" and src[3] != "push")
         if not okp and badH is None:
             badH = (sp, d)
     ctx.check("C18.H", "next:emissions_carry_k_list", badH is None and nH >= 3,
